@@ -6,6 +6,7 @@ correspondence run / the monitors find one, otherwise as `no-failing-input-found
 
 from __future__ import annotations
 
+import asyncio
 import itertools
 import os
 import random
@@ -62,6 +63,8 @@ class LockRun:
         self.cancel_req: set[int] = set()   # waiting tasks for which cancel was requested
         self.flags = set()
         self.ended: set[int] = set()
+        self.spinning: set[int] = set()    # tasks inside acquire() entered in an already cancelled scope
+        self.script: list[int] = []
 
     def __enter__(self):
         self._sess = self.world.session()
@@ -87,10 +90,15 @@ class LockRun:
         for t, p in self.world.puppets.items():
             if t in self.ended:
                 continue
+            if t in self.spinning:
+                en.append((8, t))           # only the delivery + resumption of the cancelled-entry acquire
+                continue
             if p.at_decision:
                 en += [(0, t), (1, t), (2, t)]
                 if len(self.ended) < len(self.world.puppets) - 2:
                     en.append((6, t))
+                if self.observe() == [0, 0, 0] and not self.spinning:
+                    en.append((7, t))       # acquire() of a free lock inside an already cancelled scope
             else:
                 if self.world.runnable(p):
                     en.append((3, t))
@@ -103,6 +111,7 @@ class LockRun:
     def do(self, c: int, t: int):
         w = self.world
         lock = self.lock
+        self.script += [c, t]          # every operation performed, incl. the harness-only ones (5 deferred, 6, 7, 8)
         before = self.observe()
         if c == 0:
             CancelScope = self.anyio.CancelScope
@@ -134,6 +143,50 @@ class LockRun:
             self.flags.add("holder_ended" if t in self.holders else "task_ended")
             if self.observe() != before:
                 self.mon.append(f"the end of task {t} changed the lock state {before} -> {self.observe()}")
+            return
+        elif c == 7:
+            # harness-only (no model op): acquire() of a FREE lock in an already cancelled scope.  The call sits in
+            # checkpoint_if_cancelled() until the cancellation is delivered (op 8); meanwhile other tasks act.  Nothing
+            # about the lock may change: it is not claimed, nobody queues behind a tentative claim.
+            CancelScope = self.anyio.CancelScope
+
+            async def cmd(p):
+                with CancelScope() as sc:
+                    sc.cancel()
+                    await lock.acquire()
+                if sc.cancelled_caught:
+                    raise CancelledError("absorbed by the call's own scope")
+            out = w.act(t, cmd)
+            self.flags.add("acquire_in_cancelled_scope")
+            if out is not None and out[0] == "blocked":
+                self.spinning.add(t)
+            if self.observe() != before:
+                self.mon.append(f"acquire() by task {t} in an already cancelled scope changed the lock state {before} -> {self.observe()} before raising")
+            return
+        elif c == 8:
+            # deliver the pending cancellation (every non-task callback in the ready queue) and let the task run
+            p = w.puppets[t]
+            for h in list(w.loop.ready_handles()):
+                if not isinstance(getattr(h._callback, "__self__", None), asyncio.Task):
+                    w.loop.run_handle(h)
+            out = None
+            for _ in range(6):
+                out = w.resume(t)
+                if p.at_decision:
+                    break
+                for h in list(w.loop.ready_handles()):
+                    if not isinstance(getattr(h._callback, "__self__", None), asyncio.Task):
+                        w.loop.run_handle(h)
+            self.spinning.discard(t)
+            if not p.at_decision:
+                self.mon.append(f"acquire() by task {t} in an already cancelled scope was not interrupted within 6 cycles")
+                return
+            if code_of(out) != 2:
+                self.mon.append(f"acquire() by task {t} in an already cancelled scope ended with {out} instead of the cancellation")
+            if t in self.holders or self.observe()[1] == t:
+                self.mon.append(f"acquire() by task {t} in an already cancelled scope left the task holding the lock")
+            if self.observe()[0] == 0 and self.observe()[2] > 0:
+                self.mon.append(f"after the cancelled acquire() of task {t}: free lock with {self.observe()[2]} waiting tasks")
             return
         elif c == 3:
             out = w.resume(t)
@@ -222,7 +275,10 @@ class LockRun:
             for t, p in self.world.puppets.items():
                 if t in self.ended:
                     continue
-                if not p.at_decision:
+                if t in self.spinning:
+                    self.do(8, t)
+                    progressed = True
+                elif not p.at_decision:
                     if self.world.runnable(p):
                         self.do(3, t)
                         progressed = True
@@ -255,7 +311,8 @@ def run_script(fast: bool, ntasks: int, flat_ops: list[int], quiesce=True):
 def random_case(rng: random.Random, nsteps: int):
     fast = rng.random() < 0.35
     ntasks = rng.choice([2, 3, 3, 4, 5])
-    weights = {0: 5, 1: 1.2, 2: 3, 3: 5, 4: rng.choice([0.5, 2, 4]), 5: rng.choice([0.5, 2, 3]), 6: rng.choice([0, 0.15, 0.4])}
+    weights = {0: 5, 1: 1.2, 2: 3, 3: 5, 4: rng.choice([0.5, 2, 4]), 5: rng.choice([0.5, 2, 3]), 6: rng.choice([0, 0.15, 0.4]),
+               7: rng.choice([0, 0.6, 1.5]), 8: 1.0}
     with LockRun(fast, ntasks) as r:
         for _ in range(nsteps):
             en = r.enabled()
@@ -361,7 +418,7 @@ def check(tier: str) -> int:
 
     # ---- decide ----
     for r, msg in monitor_hits[:5]:
-        rep.violation(msg, {"kind": "monitor", "fast": r.fast, "ntasks": r.ntasks, "ops": r.ops,
+        rep.violation(msg, {"kind": "monitor", "fast": r.fast, "ntasks": r.ntasks, "ops": r.ops, "script": r.script,
                             "ops_readable": [(OPN[r.ops[i]], r.ops[i + 1]) for i in range(0, len(r.ops), 2)]})
     tie_broken = []
     if not proofs_ok:
@@ -428,7 +485,7 @@ def replay(path: str) -> int:
                                                                    ["%s:%s" % re.findall(r'File "\./([^"]+)", line (\d+)', log)[0]]))
         return 0 if (ok and t_rc == 0) else 1
     c = d.get("case") or d
-    r = run_script(bool(c.get("fast")), c.get("ntasks", 5), c["ops"])
+    r = run_script(bool(c.get("fast")), c.get("ntasks", 5), c.get("script") or c["ops"], quiesce=not c.get("script"))
     for i in range(0, len(r.ops), 2):
         print(OPN[r.ops[i]], r.ops[i + 1], r.outs[i * 2:i * 2 + 4])
     for m in r.mon:
